@@ -582,20 +582,23 @@ def issorted(table, key=None, reverse=False, strict=False):
     except StopIteration:
         flds = []
     if key is None:
-        prev = next(it)
-        for curr in it:
-            if not op(curr, prev):
-                return False
-            prev = curr
+        # lexical order over all fields, as sort() does without a key
+        indices = range(len(flds))
     else:
-        getkey = comparable_itemgetter(*asindices(flds, key))
+        indices = asindices(flds, key)
+    if not indices:
+        return True  # no fields, nothing to compare
+    getkey = comparable_itemgetter(*indices)
+    try:
         prev = next(it)
-        prevkey = getkey(prev)
-        for curr in it:
-            currkey = getkey(curr)
-            if not op(currkey, prevkey):
-                return False
-            prevkey = currkey
+    except StopIteration:
+        return True  # no data rows
+    prevkey = getkey(prev)
+    for curr in it:
+        currkey = getkey(curr)
+        if not op(currkey, prevkey):
+            return False
+        prevkey = currkey
     return True
 
 
